@@ -564,4 +564,22 @@ def st_discard(ex, rn, recv, args, s, sink, node):
     return [(s, ty.none_val())]
 
 
-SET_METHODS = {"add": st_add, "discard": st_discard}
+def st_update(ex, rn, recv, args, s, sink, node):
+    other = args[0]
+    if other.e is None:
+        return [(s, ty.none_val())]
+    kt = other.t.key if isinstance(other.t, ty.Set) else other.t.elem
+    if recv.e is None:
+        recv = ops.coerce(recv, ty.Set(kt))
+    new = ty.fresh(recv.t, "union")
+    x = z3.Const("x!upd%d" % ex._fresh(), ty.sort_of(recv.t.key))
+    if isinstance(other.t, ty.Set):
+        member = z3.Select(other.e, x)
+    else:
+        member = z3.Contains(other.e, z3.Unit(x))
+    s.assume(z3.ForAll([x], z3.Select(new.e, x) == z3.Or(z3.Select(recv.e, x), member)))
+    ex.store_loc(s, rn, new)
+    return [(s, ty.none_val())]
+
+
+SET_METHODS = {"add": st_add, "discard": st_discard, "update": st_update}
